@@ -124,7 +124,17 @@ def bindsOf (s : St) (p : Nat) : List Entry := s.binds.filter (·.peer = p)
 def notifyTargets (s : St) (sEnt : List Nat) (sFeat : Nat) : List (Nat × List Nat × Nat) :=
   (s.subs.filter fun e => e.sEnt = sEnt && e.sFeat = sFeat).map fun e => (e.peer, e.cEnt, e.cFeat)
 
-/-- one call, drop or entity removal; a history is a list of these -/
+/-- One pass of RemoveSubscriptionsForEntity: one critical section of the subscription manager. A teardown is a
+    sequence of such passes (per entity, subscriptions first, then bindings); calls of other peers may be processed
+    between any two of them. -/
+def subsPass (s : St) (p : Nat) (ent : List Nat) : St :=
+  { s with subs := s.subs.filter fun e => !(e.peer = p && e.cEnt = ent) }
+
+/-- one pass of RemoveBindingsForEntity -/
+def bindsPass (c : Cfg) (s : St) (p : Nat) (ent : List Nat) : St :=
+  { s with binds := s.binds.filter fun e => !((c.dropBindsAnyPeer || e.peer = p) && e.cEnt = ent) }
+
+/-- one call, drop, entity removal or single pass of a teardown; a history is a list of these -/
 inductive Op
   | bind (p : Nat) (cEnt : List Nat) (cFeat : Nat) (sEnt : List Nat) (sFeat typ : Nat)
   | unbind (p cDev : Nat) (cEnt : List Nat) (cFeat : Nat) (sEnt : List Nat) (sFeat : Nat)
@@ -132,6 +142,8 @@ inductive Op
   | unsub (p cDev : Nat) (cEnt : List Nat) (cFeat : Nat) (sEnt : List Nat) (sFeat : Nat)
   | drop (p : Nat)
   | dropEnt (p : Nat) (ent : List Nat)
+  | subsPass (p : Nat) (ent : List Nat)
+  | bindsPass (p : Nat) (ent : List Nat)
 
 def step (c : Cfg) (s : St) : Op → St
   | .bind p ce cf se sf t => (addBind s p ce cf se sf t).1
@@ -140,5 +152,7 @@ def step (c : Cfg) (s : St) : Op → St
   | .unsub p cd ce cf se sf => (delSub c s p cd ce cf se sf).1
   | .drop p => dropPeer c s p
   | .dropEnt p ent => dropEntity c s p ent
+  | .subsPass p ent => subsPass s p ent
+  | .bindsPass p ent => bindsPass c s p ent
 
 end Spine.Reg
